@@ -88,6 +88,57 @@ def make_device(script, log):
     return d
 
 
+def run_two_devices(stream, script):
+    """A second Device is alive next to the first one and reads its own stream in between: nothing crosses over."""
+    log = []
+    d = make_device(script, log)
+    other_stream = b"zz\nyy"
+    other = make_device([b"z", b"z\ny", b"y"], [])
+    results, oresults, problems = [], [], []
+    limit = len(script) + stream.count(b"\n") + 6
+    for _ in range(limit):
+        r = d.readline()
+        if len(oresults) < 8 and (not oresults or oresults[-1] is not DEV.READ_EOF):
+            oresults.append(other.readline())
+        results.append(r)
+        if r is DEV.READ_EOF:
+            break
+    while len(oresults) < 8 and (not oresults or oresults[-1] is not DEV.READ_EOF):
+        oresults.append(other.readline())
+    if b"".join(x for x in results if x) != stream:
+        problems.append(("bytes-cross-between-devices", f"with a second device reading {other_stream!r} in between, the first returned {[x for x in results if x]!r} for stream {short(stream)}"))
+    if b"".join(x for x in oresults if x) != other_stream:
+        problems.append(("bytes-cross-between-devices", f"the second device returned {[x for x in oresults if x]!r} for its stream {other_stream!r} (first stream {short(stream)})"))
+    return results, problems
+
+
+def run_reconnect(stream, script):
+    """The same Device object is connected again after its first stream ended: the second stream is delivered like the first."""
+    log = []
+    d = make_device([b"first\nta", b"il"], log)
+    for _ in range(6):
+        if d.readline() is DEV.READ_EOF:
+            break
+    holder = {"file": FakeFile(script, log)}
+    real_socket, real_selectors = DEV.socket, DEV.selectors
+    DEV.socket = types.SimpleNamespace(socket=lambda *a, **k: FakeSock(holder), AF_INET=2, SOCK_STREAM=1,
+                                       IPPROTO_TCP=6, TCP_NODELAY=1, timeout=real_socket.timeout, error=real_socket.error)
+    DEV.selectors = types.SimpleNamespace(DefaultSelector=lambda: FakeSelector(holder), EVENT_READ=1)
+    try:
+        d.connect("127.0.0.1:8000")
+    finally:
+        DEV.socket, DEV.selectors = real_socket, real_selectors
+    results, problems = [], []
+    for _ in range(len(script) + stream.count(b"\n") + 6):
+        r = d.readline()
+        results.append(r)
+        if r is DEV.READ_EOF:
+            break
+    if b"".join(x for x in results if x) != stream:
+        problems.append(("second-connection-stream-not-delivered", f"after the first stream ended and connect() was called again, readline returned {[x for x in results if x]!r} for stream {short(stream)}"))
+    return results, problems
+
+
 def run_script(stream, script, write_fails_before=None):
     """Returns (results, problems). write_fails_before = k: before the k-th readline() the host tries to write and the write
     fails (the peer has closed its side): whatever was received must still be delivered."""
@@ -225,6 +276,12 @@ def _work(item):
                 outcomes.add(digest(res))
                 for sig, msg in problems:
                     out.append((sig, msg, {"stream": list(stream), "script": enc(script)}))
+                if 1 <= len(stream) <= 4 and not any(x is None or isinstance(x, tuple) for x in script):
+                    for fn, tag in ((run_two_devices, "two-devices"), (run_reconnect, "reconnect")):
+                        res3, problems3 = fn(stream, script)
+                        n += 1
+                        for sig, msg in problems3:
+                            out.append((sig, msg, {"stream": list(stream), "script": enc(script), "variant": tag}))
                 if len(stream) <= 4 and script is not None and not any(x is None or isinstance(x, tuple) for x in script):
                     # a failed write (the peer closed its side) before any of the readline calls: nothing received is lost
                     for k in range(0, len(res)):
@@ -292,7 +349,7 @@ def run(tier, seed):
                  f"every byte string over {{a, LF, CR}} of length <= {crlen} containing a CR and over {{a, LF, CR, NUL, FF, FS, 0x85, 0xff}} of length <= {exlen} containing one of the last five ({ncr} streams; only LF ends a line) x every composition x <= 1 no-data-yet answer; plus "
                  f"{len(longs)} long-stream fragmentations (8 streams up to 513 bytes x cyclic chunk-size patterns over {{1,2,100,255,256}}, "
                  "<= 1 'no data yet'); each script is run through the real Device (socket flavour, connect() with socket/selectors "
-                 "substituted) calling readline() until READ_EOF; for streams of <= 4 bytes additionally a failing write injected before each readline call; distinct = distinct result sequences"),
+                 "substituted) calling readline() until READ_EOF; for streams of <= 4 bytes additionally a failing write injected before each readline call, a second Device alive and reading in between, and the same Device connected again after its first stream ended; distinct = distinct result sequences"),
         "exhaustive": True,
         "exhaustive_note": "the stated script space is enumerated completely; streams outside it are not covered",
         "samples": [{"stream": "a\\na", "script": [[97], ["none", True], [10, 97]], "results": ["a\\n", "a", None]}],
@@ -305,5 +362,10 @@ def run(tier, seed):
 
 def replay(body):
     rp = body["replay"]
-    results, problems = run_script(bytes(rp["stream"]), dec(rp["script"]), rp.get("write_fails_before"))
+    if rp.get("variant") == "two-devices":
+        results, problems = run_two_devices(bytes(rp["stream"]), dec(rp["script"]))
+    elif rp.get("variant") == "reconnect":
+        results, problems = run_reconnect(bytes(rp["stream"]), dec(rp["script"]))
+    else:
+        results, problems = run_script(bytes(rp["stream"]), dec(rp["script"]), rp.get("write_fails_before"))
     return {"results": [r if r is None else r.decode("latin1") for r in results], "violations": problems}
